@@ -55,6 +55,9 @@ pub enum CloseManner {
     /// child process only: the process exits, but a helper it started lives on and still holds
     /// the inherited stderr open (stdin and stdout are closed)
     ExitLeavingHelper,
+    /// child process only: the process closes its standard output (the connection is over) but
+    /// stays alive until its own standard input ends
+    StdoutClosedProcessStays,
 }
 
 impl CloseManner {
@@ -65,6 +68,7 @@ impl CloseManner {
             CloseManner::Abrupt => "abrupt",
             CloseManner::FinOnly => "fin-only",
             CloseManner::ExitLeavingHelper => "exit-leaving-a-helper-that-holds-stderr",
+            CloseManner::StdoutClosedProcessStays => "stdout-closed-while-the-process-stays",
         }
     }
 }
@@ -199,6 +203,7 @@ pub enum Conn {
 
 pub const CLI_ABORT_MAGIC: &[u8] = b"\0VH-ABORT\0";
 pub const CLI_HELPER_MAGIC: &[u8] = b"\0VH-LEAVE-HELPER\0";
+pub const CLI_STDOUT_MAGIC: &[u8] = b"\0VH-CLOSE-STDOUT\0";
 
 impl Conn {
     /// one unit on the wire
@@ -322,7 +327,7 @@ impl Conn {
             },
             Conn::Ssh { handle, channel, join, rx, raw } => {
                 match manner {
-                    CloseManner::Clean | CloseManner::ExitLeavingHelper => {
+                    CloseManner::Clean | CloseManner::ExitLeavingHelper | CloseManner::StdoutClosedProcessStays => {
                         let _ = handle.eof(channel).await;
                     }
                     CloseManner::ChannelClose => {
@@ -368,6 +373,11 @@ impl Conn {
                 if manner == CloseManner::Abrupt {
                     let _ = s.write_all(CLI_ABORT_MAGIC).await;
                     let _ = s.flush().await;
+                }
+                if manner == CloseManner::StdoutClosedProcessStays {
+                    let _ = s.write_all(CLI_STDOUT_MAGIC).await;
+                    let _ = s.flush().await;
+                    tokio::time::sleep(Duration::from_millis(60)).await;
                 }
                 if manner == CloseManner::ExitLeavingHelper {
                     let _ = s.write_all(CLI_HELPER_MAGIC).await;
@@ -485,7 +495,7 @@ pub fn fake_cli_main(args: &[String]) -> i32 {
     let Some(path) = args.first() else { return 2 };
     let Ok(sock) = std::os::unix::net::UnixStream::connect(path) else { return 3 };
     let mut to_sock = sock.try_clone().expect("clone");
-    std::thread::spawn(move || {
+    let stdin_relay = std::thread::spawn(move || {
         let mut stdin = std::io::stdin();
         let mut buf = [0u8; 65536];
         loop {
@@ -517,6 +527,20 @@ pub fn fake_cli_main(args: &[String]) -> i32 {
                         .stdout(std::process::Stdio::null())
                         .stderr(std::process::Stdio::inherit())
                         .spawn();
+                    return 0;
+                }
+                if buf[..n].ends_with(CLI_STDOUT_MAGIC) {
+                    let _ = stdout.write_all(&buf[..n - CLI_STDOUT_MAGIC.len()]);
+                    let _ = stdout.flush();
+                    // the connection is over, the process is not: it goes on reading its
+                    // standard input until that ends (at most 25 s)
+                    unsafe {
+                        libc::close(1);
+                    }
+                    let t = std::time::Instant::now();
+                    while !stdin_relay.is_finished() && t.elapsed() < std::time::Duration::from_secs(25) {
+                        std::thread::sleep(std::time::Duration::from_millis(5));
+                    }
                     return 0;
                 }
                 if buf[..n].ends_with(CLI_ABORT_MAGIC) {
